@@ -15,6 +15,9 @@ GENERIC_ROOT_INSTANCES = {
 }
 
 
+SITES = {}
+
+
 def load_justifications():
     out = {}
     p = os.path.join(VERIF, "specs", "justifications.txt")
@@ -25,7 +28,10 @@ def load_justifications():
                 continue
             m = re.match(r"^(.*?) \| (\S+) \| (.*?) :: (.*)$", line)
             if m:
-                out[(m.group(1), m.group(2), m.group(3))] = m.group(4)
+                reason = m.group(4)
+                n = re.search(r" #sites=(\d+)$", reason)
+                SITES[(m.group(1), m.group(2), m.group(3))] = int(n.group(1)) if n else None
+                out[(m.group(1), m.group(2), m.group(3))] = reason
     return out
 
 
@@ -72,6 +78,11 @@ def report(chk, P, res, rid, desc, fn_filter=None, kinds=None, floor=1):
     # one rule per build configuration shares its violation keys: the same site is one finding
     key_rule = "ABSINT" if rid.split(".")[-1] in ("default", "serde", "locales", "nodefault") else None
     nj = 0
+    # a justification was reviewed for the source lines that carried that description then: more lines with the same description are new sites
+    lines_of = {}
+    for (fn, key), o in eng.obl.items():
+        if o.bad and (fn, o.kind, o.desc) in just:
+            lines_of.setdefault((fn, o.kind, o.desc), set()).add(o.ln)
     for (fn, key), o in sorted(eng.obl.items(), key=lambda kv: (kv[0][0], kv[1].ln, kv[1].desc)):
         if fn_filter is not None and not fn_filter(fn):
             continue
@@ -83,6 +94,12 @@ def report(chk, P, res, rid, desc, fn_filter=None, kinds=None, floor=1):
             continue
         j = just.get((fn, o.kind, o.desc))
         if j is not None:
+            allowed = SITES.get((fn, o.kind, o.desc))
+            have = lines_of.get((fn, o.kind, o.desc), set())
+            if allowed is not None and len(have) > allowed and o.ln == max(have):
+                chk.bad(inst + " (additional site)", "%s obligation `%s` is undischarged on %d source lines of %s but its justification was reviewed for %d: a new site with the same description "
+                        "(line %s) needs its own review" % (o.kind, o.desc, len(have), fn, allowed, o.ln), loc=P.loc(fn, o.ln), rid=rid, key_rule=key_rule)
+                continue
             nj += 1
             chk.ok(inst, "justified: " + j, rid=rid)
             continue
